@@ -206,6 +206,9 @@ pub enum Mutation {
     ChainTruncate { keep: u8, adjust_pk: bool },
     /// prepend a signed public key (LMS signature + key) taken from another triple as a new top level
     ChainExtend { other: u16, adjust_pk: bool },
+    /// replace the LMS signature of one level by a well-formed one of ANOTHER parameter set
+    /// (exact length for its own type codes, random content, leaf index kept if in range)
+    LevelRetyped { level: u8, w_sel: u8, h_sel: u8, tag: u64 },
     Truncate { target: Target, len: u16 },
     Extend { target: Target, extra: u8, fill: u8 },
     /// use the signature / key / message of another pool triple (any hash)
@@ -476,6 +479,23 @@ pub fn apply(pool: &[Base], base: usize, m: &Mutation) -> (Triple, &'static str)
             }
             "chain-extend"
         }
+        Mutation::LevelRetyped { level, w_sel, h_sel, tag } => {
+            let (mut sigs, pubs) = pieces(b);
+            let l = (*level as usize) % sigs.len();
+            let w = [1u32, 2, 4, 8][*w_sel as usize % 4];
+            let h = [2u32, 5, 10, 15, 20, 25][*h_sel as usize % 6];
+            if (w, h) != b.levels[l] {
+                let forged = forge(b.hash, &[(w, h)], 4, *tag, 0);
+                let mut s = forged.sig[4..].to_vec();
+                let q = b.parsed.sigs[l].q;
+                if (q as u64) < (1u64 << h) {
+                    s[0..4].copy_from_slice(&q.to_be_bytes());
+                }
+                sigs[l] = s;
+                t.sig = assemble(b.parsed.nspk, &sigs, &pubs);
+            }
+            "level-retyped"
+        }
         Mutation::Truncate { target, len } => {
             let v = target_mut(&mut t, *target);
             let l = midx(*len as usize, v.len() + 1);
@@ -541,6 +561,7 @@ pub fn mutation_strategy() -> BoxedStrategy<Mutation> {
         3 => (0u8..8, any::<bool>(), any::<bool>()).prop_map(|(level, adjust_nspk, adjust_pk)| Mutation::DupLevel { level, adjust_nspk, adjust_pk }),
         3 => (0u8..8, any::<bool>()).prop_map(|(keep, adjust_pk)| Mutation::ChainTruncate { keep, adjust_pk }),
         3 => (any::<u16>(), any::<bool>()).prop_map(|(other, adjust_pk)| Mutation::ChainExtend { other, adjust_pk }),
+        4 => (0u8..8, 0u8..4, 0u8..6, any::<u64>()).prop_map(|(level, w_sel, h_sel, tag)| Mutation::LevelRetyped { level, w_sel, h_sel, tag }),
         4 => (target_strategy(), any::<u16>()).prop_map(|(target, len)| Mutation::Truncate { target, len }),
         3 => (target_strategy(), any::<u8>(), any::<u8>()).prop_map(|(target, extra, fill)| Mutation::Extend { target, extra, fill }),
         3 => (target_strategy(), any::<u16>()).prop_map(|(target, other)| Mutation::ReplaceFromAny { target, other }),
